@@ -111,7 +111,7 @@ def levenshtein(s, t):
 class EditDistance(BCheck):
     name = "C19.edit-distance"
     contract = ("edit_distance(s, t, -1) == Levenshtein distance; edit_distance(s, t, k) == the exact distance if it is <= k and some value > k otherwise; identical for str and bytes")
-    rule = ("exhaustive: all pairs of strings over {A,C,G} of length 0..5 (quick) / 0..6 (thorough) x bands -1..7; seeded: 3000 random pairs up to length 120 over ACGT with few "
+    rule = ("exhaustive: all pairs of strings over {A,C,G} of length 0..5 (quick) / 0..6 (thorough) x bands -1..7 (asked in ascending, descending and unbanded-last order in turn: results must not depend on earlier calls); seeded: 3000 random pairs up to length 120 over ACGT with few "
             "edits, bands {-1,0,1,2,5,10,30}; non-trivial = distance > 0")
     exhaustive_in = ("quick", "thorough")
     chunk = 1
@@ -153,9 +153,11 @@ class EditDistance(BCheck):
                 pl.append((s, "".join(t)))
             pairs = iter(pl)
             bands = [-1, 0, 1, 2, 5, 10, 30]
-        for s, t in pairs:
+        for n_pair, (s, t) in enumerate(pairs):
             d = levenshtein(s, t)
-            for k in bands:
+            # the result must not depend on earlier calls: bands are asked in ascending, descending and "unbanded last" order in turn
+            order = [bands, bands[::-1], bands[1:] + bands[:1]][n_pair % 3]
+            for k in order:
                 got = edit_distance(s, t, k)
                 if k == -1 or d <= k:
                     if got != d:
